@@ -212,6 +212,7 @@ func engineRS(w *World, tier string) *EngineResult {
 	r.Stats["per_call_state_fields"] = n
 	r.floor("per_call_state_fields", 2)
 	rsDef(w, r)
+	rsHandover(w, r)
 	r.finish()
 	return r
 }
